@@ -13,6 +13,7 @@ use crate::util::{hex, unhex, Rng};
 use imap_proto::types::Response;
 
 pub fn run_parser(input: &[u8]) -> String {
+    let _w = crate::util::watch(input);
     let r = std::panic::catch_unwind(|| match Response::from_bytes(input) {
         Ok((rest, resp)) => format!("OK {} {}", input.len() - rest.len(), dump::to_string(&dump::response(&resp))),
         Err(nom::Err::Incomplete(_)) => "INC".to_string(),
